@@ -156,7 +156,10 @@ def prefetch_to_device(iterator, size, devices=None):
   devices = _pmap_device_order() if devices is None else devices
 
   def _prefetch(xs):
-    return jax.device_put_sharded(list(xs), devices)
+    if hasattr(jax, 'device_put_sharded'):
+      return jax.device_put_sharded(list(xs), devices)
+    # jax.device_put_sharded was removed from newer JAX versions.
+    return _stack_on_devices(list(xs), devices)
 
   def enqueue(n):  # Enqueues *up to* `n` elements from the iterator.
     for data in itertools.islice(iterator, n):
